@@ -29,6 +29,10 @@ CLAIMED = {
   "Deductive proof of the checker message queue's selection logic as atomic steps: Put appends exactly one element at the end and leaves the rest untouched; Get returns an element that is the oldest of its transaction (per-transaction FIFO: no earlier queued element has the same tran), whose priority is maximal among all oldest-of-transaction elements, the earliest among those of maximal priority, and removes exactly that element preserving the order of the others (exactly-once delivery); isOldest is proved against its definition. Loops carry invariants and variants; all bounds obligations discharged.",
   "Each method body runs under pq.lock and is verified as one sequential atomic step (sync.Mutex mutual exclusion trusted). Put/Get are verified from states where their guard holds (queue not full / not empty): the Cond.Wait loop is unrolled once and shown not to be entered; blocking/wake-up, fairness and progress are NOT covered. slices.Delete is an assumed library contract. The history-level statement (a commit is never processed before that transaction's earlier messages) follows from per_tran_fifo + Put-appends-at-end by induction over histories, which is argued, not machine-checked. Priorities chosen in db19/checkco.go are not covered.",
   "DESIGN.md §4 C17"),
+ "C27": (
+  "Deductive proof over util/dnum for all inputs: the representation invariant (sign in -2..2, zero/infinity canonical, 16-digit maximised coefficient) is assumed on every Dnum parameter and PROVED on every result of New, FromInt, Neg, Abs, Add, Sub, add, Mul, Div, Frac, integer, Trunc, Round, Inf, Raw; New normalises exactly when no digit is dropped, rounds within one unit of the last kept digit otherwise, overflows to infinity and underflows to zero (loop completely unrolled, unwinding obligation discharged); ilog10/maxShift against the power-of-ten table; Compare is a total order (totality, antisymmetry, transitivity, Compare==0 iff Equal as lemmas over the contracts); FromInt/ToInt64 exact and inverse for |n| <= 10^16-1; align's scaling/rounding formula; sign/zero/infinity tables of Add, Mul, Div; no index out of range, no unintended integer overflow, no division by zero.",
+  "Assumed: div128 (Knuth algorithm D) only by a range bound on its result; bits.LeadingZeros64 by its library contract; package tables pow10/halfpow10/Zero/One/... are constants (checked mechanically: no store outside their initialiser). NOT covered: the +-1 ulp accuracy of Add/Mul/Div results beyond the stated formulas, FromFloat/ToFloat/Format (floating point), FromStr/String parsing. Two genuine defects found by these obligations were fixed (see known_findings.jsonl).",
+  "DESIGN.md §4 C27"),
 }
 
 NA = {
